@@ -1,4 +1,5 @@
 import SE.Proofs.RegistryPipe
+import SE.Proofs.SuffixFree
 import SE.Spec.FloatLaws
 /-
 C08 — A conflicting event is dropped alone and harms nothing else.
@@ -6,8 +7,10 @@ When the registry refuses an event (`getOrCreate` answers `.ok (.error _)`: a ty
 companion-name conflict or a reserved label name) the exporter state is unchanged except for its own
 counters, so every other series keeps its type and value and every later event is processed exactly as
 if the refused one had never been sent. The last part of the file characterises *which* requests are
-refused as conflicts (`conflict_iff_spec`) and shows by a concrete run that this check is weaker than
-"the scrape stays healthy": `gather_ok_preserved_counterexample`.
+refused as conflicts (`conflict_iff_spec`), proves what the (repaired) companion-name checks buy — over
+every history the statsd families never collide by suffix: `suffixFree_getOrCreate`, `suffix_free_history`,
+`suffixFree_no_statsd_collision` — and shows by a concrete run that "accepted" is still weaker than "the
+scrape stays healthy", now because of help strings only: `gather_ok_preserved_counterexample`.
 
 Vocabulary: see SE/Props/C07.lean. `evTarget p rx ev tags = some (c, pl)` means: the event reaches the
 registry with the request `pl = (metric type, GetArgs, update function)`; `c` are the counters after
@@ -174,17 +177,18 @@ theorem counters_do_not_influence (p : Pipe V) (d : Counts) (rx : Rx) (ev : Ev V
 /-- The conflict checks of `pkg/registry`, spelled out. A request for (`ty`, `a.name`, `a.labels`) is a
     conflict iff it is not answered from the map (same name, same type, same label set already there) and
     * the name is registered with another type, or
-    * [counter, gauge] the name ends in `_bucket`/`_count`/`_sum` and what precedes that suffix is
-      registered with a type other than counter (sic: `checkHistogramNameCollision` hard-codes counter), or
-    * [histogram] `name_sum`, `name_count` or `name_bucket` is registered with a type other than histogram, or
-    * [summary] `name_sum` or `name_count` is registered with a type other than summary. -/
+    * [all four types] the name ends in `_bucket`/`_count`/`_sum` and what precedes that suffix is registered
+      with a type other than counter (sic: `checkHistogramNameCollision` hard-codes counter; a registered
+      counter exposes no companion series, so nothing is lost), or
+    * [histogram] `name_sum`, `name_count` or `name_bucket` is registered — with whatever type, or
+    * [summary] `name_sum` or `name_count` is registered — with whatever type. -/
 def conflictsSpec (r : Reg V) (ty : MType) (a : GetArgs V) : Prop :=
   ¬(r.type? a.name = some ty ∧ (r.series? a.name a.labels).isSome = true) ∧
   ((∃ t, r.type? a.name = some t ∧ t ≠ ty) ∨
-   ((ty = .counter ∨ ty = .gauge) ∧ ∃ suf, suf ∈ [sfxBucket, sfxCount, sfxSum] ∧ ∃ base, a.name = base ++ suf ∧
+   (∃ suf, suf ∈ [sfxBucket, sfxCount, sfxSum] ∧ ∃ base, a.name = base ++ suf ∧
       ∃ t, r.type? base = some t ∧ t ≠ .counter) ∨
-   (ty = .histogram ∧ ∃ suf, suf ∈ [sfxSum, sfxCount, sfxBucket] ∧ ∃ t, r.type? (a.name ++ suf) = some t ∧ t ≠ .histogram) ∨
-   (ty = .summary ∧ ∃ suf, suf ∈ [sfxSum, sfxCount] ∧ ∃ t, r.type? (a.name ++ suf) = some t ∧ t ≠ .summary))
+   (ty = .histogram ∧ ∃ suf, suf ∈ [sfxSum, sfxCount, sfxBucket] ∧ ∃ t, r.type? (a.name ++ suf) = some t) ∨
+   (ty = .summary ∧ ∃ suf, suf ∈ [sfxSum, sfxCount] ∧ ∃ t, r.type? (a.name ++ suf) = some t))
 
 /-- `getOrCreate` answers "conflict" exactly on `conflictsSpec`. -/
 theorem conflict_iff_spec (r : Reg V) (ty : MType) (a : GetArgs V) (now : Int) :
@@ -193,73 +197,149 @@ theorem conflict_iff_spec (r : Reg V) (ty : MType) (a : GetArgs V) (now : Int) :
   unfold conflictsSpec
   have hhit : r.isHit ty a = false ↔ ¬(r.type? a.name = some ty ∧ (r.series? a.name a.labels).isSome = true) := by
     rw [← isHit_iff]; simp
-  rw [hhit, conflicts_iff]
-  apply and_congr_right
-  intro _
-  apply or_congr_right
-  cases ty with
-  | counter =>
-    simp only [Reg.companion, histNameCollision_iff, true_and, reduceCtorEq, false_and, or_false]
-  | gauge =>
-    simp only [Reg.companion, histNameCollision_iff, or_true, true_and, reduceCtorEq, false_and, or_false]
-  | histogram =>
-    simp only [Reg.companion, Bool.or_eq_true, conflicts_iff, reduceCtorEq, or_self, false_and, true_and, false_or,
-      or_false, List.mem_cons, List.not_mem_nil]
-    constructor
-    · rintro ((h | h) | h)
-      · exact ⟨_, Or.inl rfl, h⟩
-      · exact ⟨_, Or.inr (Or.inl rfl), h⟩
-      · exact ⟨_, Or.inr (Or.inr rfl), h⟩
-    · rintro ⟨suf, (rfl | rfl | rfl), h⟩
-      · exact Or.inl (Or.inl h)
-      · exact Or.inl (Or.inr h)
-      · exact Or.inr h
-  | summary =>
-    simp only [Reg.companion, Bool.or_eq_true, conflicts_iff, reduceCtorEq, or_self, false_and, true_and, false_or,
-      List.mem_cons, List.not_mem_nil, or_false]
-    constructor
-    · rintro (h | h)
-      · exact ⟨_, Or.inl rfl, h⟩
-      · exact ⟨_, Or.inr rfl, h⟩
-    · rintro ⟨suf, (rfl | rfl), h⟩
-      · exact Or.inl h
-      · exact Or.inr h
+  rw [hhit, conflicts_iff, companion_iff, histNameCollision_iff]
 
-/-! ### The stronger reading fails on the current code
+/-! ### What the companion-name checks buy: the statsd families never collide by suffix
 
-"Accepted events never make the scrape fail" is *not* what the conflict check guarantees: the check for
-summaries (and histograms) looks for `name_sum`/`name_count` registered with *another type*, so a summary
-`x` followed by a summary `x_sum` passes both checks, while `Gather` then rejects the pair
-(`checkSuffixCollisions`: family `x_sum` collides with the `_sum` series of summary `x`). -/
+`SuffixFree r` (SE/Spec/Registry.lean): no registered metric is named like a companion series (`_sum`,
+`_count`, for histograms also `_bucket`) of a registered histogram or summary. It holds of the empty
+registry and is preserved by every operation that returns a registry, hence by every history; and it is
+exactly what `checkSuffixCollisions` needs of the statsd families. No bound on sizes or lengths anywhere. -/
+
+/-- The empty registry (whatever is pre-registered). -/
+theorem suffixFree_empty (pre : List (Bytes × MType × Bytes)) : SuffixFree ({ metrics := [], pre := pre } : Reg V) :=
+  SuffixFree_empty pre
+
+/-- **Every `getOrCreate` that returns a registry preserves `SuffixFree`** — the hit path (nothing is
+    registered) and the creation path: the new name's own companion names are free (`checkObserverNameCollision`
+    looks for them with *any* type), and the new name is not a companion name of a registered observer
+    (`checkHistogramNameCollision`: the base would be registered with a type other than counter). -/
+theorem suffixFree_getOrCreate (r r' : Reg V) (ty : MType) (a : GetArgs V) (now : Int) :
+    RegWF r → SuffixFree r → r.getOrCreate ty a now = .ok (.ok r') → SuffixFree r' :=
+  fun hw hs hg => SuffixFree_getOrCreate hw hs hg
+
+/-- The value update that follows an accepted request changes no name and no type. -/
+theorem suffixFree_updateSeries (r : Reg V) (name : Bytes) (labels : Labels) (f : VecM V → Series V → Series V) :
+    SuffixFree r → SuffixFree (updateSeries r name labels f) :=
+  fun hs => SuffixFree_updateSeries hs name labels f
+
+/-- The TTL sweep removes series only, never a metric entry: the (name, type) pairs are the same list … -/
+theorem sweep_keeps_metric_entries (r : Reg V) (now : Int) :
+    (r.sweep now).metrics.map (fun m => (m.name, m.ty)) = r.metrics.map (fun m => (m.name, m.ty)) :=
+  sweep_names_types r now
+
+/-- … so `SuffixFree` is preserved (it is even the same statement before and after). -/
+theorem suffixFree_sweep (r : Reg V) (now : Int) : SuffixFree r → SuffixFree (r.sweep now) :=
+  fun hs => SuffixFree_sweep hs now
+
+theorem suffixFree_sweep_iff (r : Reg V) (now : Int) : SuffixFree (r.sweep now) ↔ SuffixFree r :=
+  SuffixFree_sweep_iff r now
+
+/-- One event, whatever `handleEvent` does with it. -/
+theorem suffixFree_handleEvent (p p' : Pipe V) (rx : Rx) (ev : Ev V) (tags : Labels) (hw : RegWF p.reg)
+    (hs : SuffixFree p.reg) (h : handleEvent p rx ev tags = some (.ok p')) : SuffixFree p'.reg :=
+  SuffixFree_handleEvent hw hs h
+
+/-- All events of one line. -/
+theorem suffixFree_handleEvents (p p' : Pipe V) (rx : Rx) (tags : Labels) (evs : List (Ev V)) (hw : RegWF p.reg)
+    (hs : SuffixFree p.reg) (h : handleEvents p rx tags evs = some (.ok p')) : SuffixFree p'.reg :=
+  (SuffixFree_handleEvents evs hw hs h).2
+
+/-- Every history (event batches, sweeps, clock changes, reloads, in any order) from a well-formed,
+    suffix-free registry. -/
+theorem suffix_free_history_from (rx : Rx) (p p' : Pipe V) (ops : List (PipeOp V)) (hw : RegWF p.reg)
+    (hs : SuffixFree p.reg) (h : runOps rx p ops = some (.ok p')) : SuffixFree p'.reg :=
+  (SuffixFree_runOps rx ops hw hs h).2
+
+/-- **After every history that starts without statsd metrics, the registry is suffix-free.** -/
+theorem suffix_free_history (rx : Rx) (p p' : Pipe V) (ops : List (PipeOp V)) :
+    p.reg.metrics = [] → runOps rx p ops = some (.ok p') → SuffixFree p'.reg :=
+  fun h0 h => (SuffixFree_runOps rx ops (wf_suffixFree_of_no_metrics h0).1 (wf_suffixFree_of_no_metrics h0).2 h).2
+
+/-- **The link to `Gather`**: in a suffix-free registry `checkSuffixCollisions` finds nothing among the live
+    statsd families (this list is the statsd part of the `fams` of `Reg.gatherOk`). -/
+theorem suffixFree_no_statsd_collision (r : Reg V) :
+    SuffixFree r → suffixCollision ((r.metrics.filter (!·.series.isEmpty)).map fun m => (m.name, m.ty)) = false :=
+  suffixCollision_live_of_suffixFree
+
+/-- Without pre-registered families that is the whole third conjunct of `Reg.gatherOk` (the families of
+    `Reg.pre` are outside the exporter's conflict checks: SE.Props.C03.preregistered_name_collision) … -/
+theorem suffixFree_no_collision_without_pre (r : Reg V) (hs : SuffixFree r) (hpre : r.pre = []) :
+    (!suffixCollision ((r.metrics.filter (!·.series.isEmpty)).map (fun m => (m.name, m.ty)) ++
+        r.pre.map (fun p => (p.1, p.2.1)))) = true := by
+  have := suffixCollision_liveFams_of_suffixFree hs hpre
+  unfold liveFams at this
+  rw [this]; rfl
+
+/-- … and the second conjunct is vacuous: `Gather` succeeds iff every live family has one help string. -/
+theorem gather_ok_iff_help_consistent (r : Reg V) (hs : SuffixFree r) (hpre : r.pre = []) :
+    r.gatherOk = (r.metrics.filter (!·.series.isEmpty)).all helpConsistent :=
+  gatherOk_of_suffixFree hs hpre
+
+/-! ### The stronger reading still fails: help strings
+
+"Accepted events never make the scrape fail" is *not* what the conflict checks guarantee. The suffix
+collisions are gone (above); what remains is the help string: a family has one vector per label-name set, each
+vector keeps the help string it was created with, and nothing compares them. The metric `x` requested without
+labels and help "h", then with the label `k` and help "g": both requests are accepted, and `Gather` rejects
+the family ("has help … but should have …"). -/
 
 section counterexample
 attribute [local instance] toyNumOps
 
-private def args (name : Bytes) : GetArgs Int := { name := name, labels := [], help := [104], ttl := 0 }
+private def args (name : Bytes) (labels : Labels) (help : Bytes) : GetArgs Int :=
+  { name := name, labels := labels, help := help, ttl := 0 }
 private def nameX : Bytes := [120]
 private def nameXsum : Bytes := [120, 95, 115, 117, 109]   -- "x_sum"
+private def nameYsum : Bytes := [121, 95, 115, 117, 109]   -- "y_sum"
+private def helpH : Bytes := [104]   -- "h"
+private def helpG : Bytes := [103]   -- "g"
+private def labelsKV : Labels := [([107], [118])]   -- k="v"
 
-/-- registry after `GetSummary("x")`, then after `GetSummary("x_sum")` -/
-private def step (r : Reg Int) (name : Bytes) : Option (Reg Int) :=
-  match r.getOrCreate .summary (args name) 0 with
+/-- the registry after an accepted request (`none`: refused or panicked) -/
+private def step (r : Reg Int) (ty : MType) (a : GetArgs Int) : Option (Reg Int) :=
+  match r.getOrCreate ty a 0 with
   | .ok (.ok r') => some r'
   | _ => none
+
+private theorem step_spec {r r' : Reg Int} {ty : MType} {a : GetArgs Int} (h : step r ty a = some r') :
+    r.getOrCreate ty a 0 = .ok (.ok r') := by
+  unfold step at h
+  split at h
+  · rename_i r1 heq; injection h with h; rw [heq, h]
+  · cases h
+
+/-- the registry's answer when it refuses the request -/
+private def refusal (r : Reg Int) (ty : MType) (a : GetArgs Int) : Option RegErr :=
+  match r.getOrCreate ty a 0 with
+  | .ok (.error e) => some e
+  | _ => none
+
+private theorem refusal_spec {r : Reg Int} {ty : MType} {a : GetArgs Int} {e : RegErr} (h : refusal r ty a = some e) :
+    r.getOrCreate ty a 0 = .ok (.error e) := by
+  unfold refusal at h
+  split at h
+  · rename_i e1 heq; injection h with h; rw [heq, h]
+  · cases h
+
+private theorem some_getD (o : Option (Reg Int)) (h : o.isSome = true) : o = some (o.getD {}) := by
+  cases o with
+  | none => cases h
+  | some x => rfl
 
 /-- the unguarded claim: a request that the registry accepts keeps `Gather` healthy -/
 def gather_ok_preserved_statement : Prop :=
   ∀ (V : Type) [NumOps V] (r r' : Reg V) (ty : MType) (a : GetArgs V) (now : Int),
     RegWF r → r.gatherOk = true → r.getOrCreate ty a now = .ok (.ok r') → r'.gatherOk = true
 
-/-- summary `x` and then summary `x_sum` are both accepted (no conflict is reported), the registry is
-    healthy after the first and `Gather` fails after the second. -/
+/-- summary `x{}` with help "h" and then summary `x{k="v"}` with help "g" are both accepted (no conflict is
+    reported), the registry is healthy after the first and `Gather` fails after the second. -/
 theorem gather_ok_preserved_counterexample :
-    ∃ r1 r2 : Reg Int, step {} nameX = some r1 ∧ step r1 nameXsum = some r2 ∧
+    ∃ r1 r2 : Reg Int, step {} .summary (args nameX [] helpH) = some r1 ∧
+      step r1 .summary (args nameX labelsKV helpG) = some r2 ∧
       r1.gatherOk = true ∧ r2.gatherOk = false := by
-  have some_getD : ∀ (o : Option (Reg Int)), o.isSome = true → o = some (o.getD {}) := by
-    intro o h; cases o with
-    | none => cases h
-    | some x => rfl
-  refine ⟨(step {} nameX).getD {}, (step ((step {} nameX).getD {}) nameXsum).getD {}, ?_, ?_, ?_, ?_⟩
+  refine ⟨(step {} .summary (args nameX [] helpH)).getD {},
+    (step ((step {} .summary (args nameX [] helpH)).getD {}) .summary (args nameX labelsKV helpG)).getD {}, ?_, ?_, ?_, ?_⟩
   · exact some_getD _ (by with_unfolding_all decide)
   · exact some_getD _ (by with_unfolding_all decide)
   · with_unfolding_all decide
@@ -269,19 +349,46 @@ theorem gather_ok_preserved_counterexample :
 theorem gather_ok_preserved_statement_false : ¬ gather_ok_preserved_statement := by
   intro h
   obtain ⟨r1, r2, h1, h2, hg1, hg2⟩ := gather_ok_preserved_counterexample
-  have hs1 : (({} : Reg Int).getOrCreate .summary (args nameX) 0) = .ok (.ok r1) := by
-    unfold step at h1
-    split at h1
-    · rename_i r' heq; injection h1 with h1; rw [heq, h1]
-    · cases h1
-  have hs2 : (r1.getOrCreate .summary (args nameXsum) 0) = .ok (.ok r2) := by
-    unfold step at h2
-    split at h2
-    · rename_i r' heq; injection h2 with h2; rw [heq, h2]
-    · cases h2
+  have hs1 := step_spec h1
+  have hs2 := step_spec h2
   have hw1 : RegWF r1 := RegWF_getOrCreate (RegWF_empty []) hs1
-  have := h Int r1 r2 .summary (args nameXsum) 0 hw1 hg1 hs2
+  have := h Int r1 r2 .summary (args nameX labelsKV helpG) 0 hw1 hg1 hs2
   rw [hg2] at this; cases this
+
+/-- the registry of that counterexample is suffix-free all the same: the failure is the help string -/
+example : ∀ r1 r2 : Reg Int, step {} .summary (args nameX [] helpH) = some r1 →
+    step r1 .summary (args nameX labelsKV helpG) = some r2 → SuffixFree r2 := by
+  intro r1 r2 h1 h2
+  have hs1 := step_spec h1
+  exact suffixFree_getOrCreate r1 r2 _ _ 0 (RegWF_getOrCreate (RegWF_empty []) hs1)
+    (suffixFree_getOrCreate _ r1 _ _ 0 (RegWF_empty []) (suffixFree_empty []) hs1) (step_spec h2)
+
+/-! The former witness — summary `x`, then summary `x_sum`: both were accepted and `Gather` failed with a
+    suffix collision — is now refused, in either order. -/
+
+example : ∃ r1 : Reg Int, step {} .summary (args nameX [] helpH) = some r1 ∧
+    r1.getOrCreate .summary (args nameXsum [] helpH) 0 = .ok (.error .conflict) := by
+  refine ⟨(step {} .summary (args nameX [] helpH)).getD {}, some_getD _ (by with_unfolding_all decide), refusal_spec ?_⟩
+  with_unfolding_all decide
+
+example : ∃ r1 : Reg Int, step {} .summary (args nameXsum [] helpH) = some r1 ∧
+    r1.getOrCreate .summary (args nameX [] helpH) 0 = .ok (.error .conflict) := by
+  refine ⟨(step {} .summary (args nameXsum [] helpH)).getD {}, some_getD _ (by with_unfolding_all decide), refusal_spec ?_⟩
+  with_unfolding_all decide
+
+/-- non-vacuity of `SuffixFree`: histogram `x`, then counter `y_sum` — both accepted; the registry reached
+    holds both metrics, is suffix-free and scrapes fine -/
+example : ∃ r1 r2 : Reg Int, step {} .histogram (args nameX [] helpH) = some r1 ∧
+    step r1 .counter (args nameYsum [] helpH) = some r2 ∧
+    r2.metrics.map (fun m => (m.name, m.ty)) = [(nameX, .histogram), (nameYsum, .counter)] ∧
+    SuffixFree r2 ∧ r2.gatherOk = true := by
+  refine ⟨(step {} .histogram (args nameX [] helpH)).getD {},
+    (step ((step {} .histogram (args nameX [] helpH)).getD {}) .counter (args nameYsum [] helpH)).getD {}, ?_, ?_, ?_, ?_, ?_⟩
+  · exact some_getD _ (by with_unfolding_all decide)
+  · exact some_getD _ (by with_unfolding_all decide)
+  · with_unfolding_all decide
+  · unfold SuffixFree; with_unfolding_all decide
+  · with_unfolding_all decide
 
 /-! The same through the whole exporter: configuration without rules, observers default to summaries;
     the lines `x:1|ms` and `x_sum:1|ms`. -/
@@ -299,10 +406,14 @@ private def outcome (evs : List (Ev Int)) : Option (Nat × Nat × Bool) :=
   | some (.ok p) => some (p.counts.applied, p.counts.conflicts, p.reg.gatherOk)
   | _ => none
 
-/-- both events are applied, no conflict is counted, and the scrape fails after the second -/
-theorem gather_ok_preserved_counterexample_exporter :
-    outcome [evObs nameX] = some (1, 0, true) ∧ outcome [evObs nameX, evObs nameXsum] = some (2, 0, false) := by
-  constructor <;> with_unfolding_all decide
+/-- the timer `x` is applied; the timer `x_sum` that follows is now counted as a conflict and dropped alone
+    (before the repair: both applied, `(2, 0, false)`), the scrape stays fine, and `x` keeps receiving samples;
+    the same with the two names in the other order -/
+theorem companion_claims_now_conflict :
+    outcome [evObs nameX] = some (1, 0, true) ∧ outcome [evObs nameX, evObs nameXsum] = some (1, 1, true) ∧
+    outcome [evObs nameX, evObs nameXsum, evObs nameX] = some (2, 1, true) ∧
+    outcome [evObs nameXsum, evObs nameX] = some (1, 1, true) := by
+  refine ⟨?_, ?_, ?_, ?_⟩ <;> with_unfolding_all decide
 
 end counterexample
 
